@@ -21,7 +21,9 @@ pub struct Shapes {
     items: Vec<String>,
     #[deb822(field = "Priority")]
     prio: Option<Priority>,
-    #[deb822(field = "Flag", serialize_with = ser_flag, deserialize_with = de_flag)]
+    // (options split over two attributes: both apply)
+    #[deb822(field = "Flag")]
+    #[deb822(serialize_with = ser_flag, deserialize_with = de_flag)]
     flag: Option<bool>,
     #[deb822(field = "Note")]
     note: Option<String>,
